@@ -324,3 +324,28 @@ class Segment:
 
     def __repr__(self):
         return 'Segment<%s[%s:+%s]>' % (self.base, self.off, self.n)
+
+
+class SymEnumVal(SymVal):
+    """symbolic member of an interpreted Enum class: t is the z3 Int index into cls.members (declaration order)"""
+    __slots__ = ('cls',)
+
+    def __init__(self, t, cls):
+        SymVal.__init__(self, t, 'enum')
+        self.cls = cls
+
+    def __repr__(self):
+        return 'SymEnum<%s:%s>' % (self.cls.name, self.t)
+
+
+class SymNameOf(SymVal):
+    """the .name (optionally lower-cased) of a symbolic enum member: an opaque string tied to its source"""
+    __slots__ = ('src', 'lowered')
+
+    def __init__(self, t, src, lowered=False):
+        SymVal.__init__(self, t, 'str')
+        self.src, self.lowered = src, lowered
+
+
+def enum_index(member):
+    return list(member.cls.members.values()).index(member)
